@@ -650,3 +650,73 @@ def full_persistence_model(u: Unit):
                          if stored else z3.BoolVal(False), {}, FULLP_REPLAY)
                 u.oblige(p, f"model.persistence.other_buckets_untouched[{tag}]", zb(same_others(p, p.ex.snap)), {}, FULLP_REPLAY)
             u.cover(f"model.persistence.cover[{tag}]", [1] * n_ret, lambda _: True)
+
+
+# ---- compute_ipc_convolution: the frame is convolved with the kernel of ITS couplings; outside the frame the MEAN of the frame is assumed ----
+IPCCONV_REPLAY = lambda w: {"code": """
+import numpy as np, importlib
+M = importlib.import_module('pyxel.models.charge_collection.inter_pixel_capacitance')
+VIOLATED, DETAIL = False, 'a uniform frame is unchanged by inter-pixel coupling (weights sum to one, edges filled with the frame mean); coupling moves charge to the neighbours'
+for shape, level in (((6, 7), 100.0), ((3, 3), 7.5), ((10, 4), 0.0)):
+    for c, d, a in ((0.1, 0.0, 0.0), (0.1, 0.05, 0.03), (0.2, 0.01, 0.0)):
+        out = np.asarray(M.compute_ipc_convolution(input=np.full(shape, level), coupling=c, diagonal_coupling=d, anisotropic_coupling=a))
+        if out.shape != shape or not np.allclose(out, level, rtol=1e-9, atol=1e-9):
+            VIOLATED, DETAIL = True, f'uniform {shape} frame at {level}, couplings {(c, d, a)}: result between {out.min()} and {out.max()}'; break
+    if VIOLATED: break
+if not VIOLATED:
+    x = np.zeros((7, 7)); x[3, 3] = 1000.0
+    out = np.asarray(M.compute_ipc_convolution(input=x, coupling=0.1, diagonal_coupling=0.05, anisotropic_coupling=0.0))
+    k = M.ipc_kernel(coupling=0.1, diagonal_coupling=0.05, anisotropic_coupling=0.0)
+    core = out[2:5, 2:5] - x.mean() * (1 - 1)      # interior: no edge fill involved
+    if not np.allclose(out[2:5, 2:5], 1000.0 * k[::-1, ::-1] + 0.0, atol=1e-6):
+        VIOLATED, DETAIL = True, f'a single hot pixel is not spread by the coupling kernel: {out[2:5, 2:5].round(3).tolist()} vs kernel {k.round(3).tolist()}'
+""", "expect": "compute_ipc_convolution = convolution with ipc_kernel(own couplings), edges filled with the frame mean"}
+
+
+@unit("C15", "ipc.convolution_call")
+def ipc_convolution_call(u: Unit):
+    """compute_ipc_convolution: the library convolution receives the given frame, the kernel ipc_kernel built from the SAME three couplings
+    (kernel weights sum to one: unit ipc), boundary='fill' with the MEAN of that frame as fill value — so a uniform frame is a fixed
+    point — and its result is returned as it is. astropy's convolve_fft is the boundary (trusted: linear convolution with fill)."""
+    fi = u.fn(CC + "inter_pixel_capacitance.py::compute_ipc_convolution")
+    kq = CC + "inter_pixel_capacitance.py::ipc_kernel"
+    cfg = D.install(Cfg("real"))
+    rec = u.track({})
+    cfg.contracts[kq] = Contract(kq, lambda ex, args, kwargs, fr, rec=rec: (rec.update(kernel_kw=dict(kwargs), kernel_args=list(args)), VOpaque("xr", None, {"label": "kernel"}))[1], "C15.ipc.*: weights sum to one")
+
+    def conv(ex, f, args, kwargs, fr, rec=rec):
+        rec.update(conv_args=list(args), conv_kw=dict(kwargs))
+        return VOpaque("xr", None, {"label": "convolved"})
+    cfg.lib_overrides["astropy.convolution.convolve_fft"] = conv
+    cfg.lib_overrides["astropy.convolution.convolve"] = conv
+    A = z3.Function("ipc_in", z3.IntSort(), z3.IntSort(), z3.RealSort())
+
+    def setup(ex, rec=rec):
+        rec.clear()
+        ex.st.assume(z3.And(R > 0, C_ > 0))
+        arr = ex.st.alloc(HArr((R, C_), VDtype("float64"), lambda ix: VFloat(A(z_int(ix[0]), z_int(ix[1])))))
+        ex.inp = arr
+        ex.c3 = [VFloat(z3.Real(n)) for n in ("coupling", "diagonal_coupling", "anisotropic_coupling")]
+        return [], {"input": arr, "coupling": ex.c3[0], "diagonal_coupling": ex.c3[1], "anisotropic_coupling": ex.c3[2]}
+    ps = u.paths(fi, setup, cfg, label="compute_ipc_convolution")
+    for p in ps:
+        if p.kind != "return":
+            u.oblige(p, "ipc.convolution_call.returns", False, {"exc": p.exc_name()}, IPCCONV_REPLAY)
+            continue
+        ca, ck = rec.get("conv_args", []), rec.get("conv_kw", {})
+        args_all = dict(zip(["array", "kernel"], ca), **ck)
+        kk = dict(zip(["coupling", "diagonal_coupling", "anisotropic_coupling"], rec.get("kernel_args", [])), **rec.get("kernel_kw", {}))
+        own_kernel = all(kk.get(n) is v for n, v in zip(("coupling", "diagonal_coupling", "anisotropic_coupling"), p.ex.c3))
+        fill = args_all.get("fill_value")
+        b = args_all.get("boundary")
+        shape_ok = args_all.get("array") is p.ex.inp and isinstance(args_all.get("kernel"), VOpaque) and args_all["kernel"].info.get("label") == "kernel" and isinstance(b, VStr) and b.v == "fill"
+        res_ok = isinstance(p.value, VOpaque) and p.value.info.get("label") == "convolved"
+        u.oblige(p, "ipc.convolution_call.frame_and_own_kernel", bool(shape_ok and own_kernel and res_ok), {"boundary": getattr(b, "v", None)}, IPCCONV_REPLAY)
+        # np.mean(frame) is a reduction result recorded by the array model: the fill value must be THE mean of the input frame
+        means = [r for r in p.st.ghost.get("reductions", []) if r.get("kind") == "mean" and r.get("elem") is p.st.cell(p.ex.inp).elem]
+        is_mean = isinstance(fill, VFloat) and any(r["result"] is fill or (not is_conc(fill.v) and z3.eq(to_real(r["result"]), to_real(fill))) for r in means)
+        u.oblige(p, "ipc.convolution_call.edges_filled_with_the_frame_mean", bool(is_mean), {"fill_value": repr(fill)}, IPCCONV_REPLAY)
+    u.cover("ipc.convolution_call.cover", ps, lambda p: p.kind == "return")
+
+
+STANDIN = dict(globals().get("STANDIN", {}), **{r"ipc\.convolution_call": IPCCONV_REPLAY})
